@@ -11,6 +11,7 @@ CONSTANTS
     SnapshotOnPush = FALSE
     WithLazy = FALSE
     WithCurrent = TRUE
+    CtxForms <- MC_Forms
     Panics = TRUE
     Emit = FALSE
 VIEW tview
